@@ -417,6 +417,14 @@ Proof.
       * rewrite upd_same, set_ph_same. reflexivity.
       * rewrite upd_other, set_ph_other by exact Hu. apply I6'.
   - rewrite erase_app, hist_app, I7. cbn. reflexivity.
+  - intros u n Hh. destruct (I8 u n Hh) as (Hs & Hn & Hun). split; [|split].
+    + destruct Hs as [Hs|[W S2]]; [left; apply published_mono; auto|].
+      destruct (Nat.eq_dec (fst n) t) as [E|E].
+      * rewrite E, Hp in W. destruct W.
+      * right. cbn. rewrite set_ph_other by exact E. auto.
+    + intros [E|Hin]; [|auto]. subst n. destruct Hs as [Hs|[W _]]; [contradiction|].
+      cbn in W. rewrite Hp in W. destruct W.
+    + exact Hun.
 Qed.
 
 (** ** linearization point of a non-empty pop: the successful CAS (ABA: see TreiberProofs) *)
@@ -451,6 +459,13 @@ Proof.
       * rewrite upd_same, set_ph_same. reflexivity.
       * rewrite upd_other, set_ph_other by exact Hu. apply I6'.
   - rewrite erase_app, hist_app, I7. cbn. reflexivity.
+  - intros u x Hh. destruct (I8 u x Hh) as (Hs' & Hn' & Hun). split; [|split].
+    + destruct Hs' as [Hs'|[W S2]]; [left; apply published_mono; auto|].
+      destruct (Nat.eq_dec (fst x) t) as [E|E].
+      * rewrite E, Hp in W. destruct W.
+      * right. cbn. rewrite set_ph_other by exact E. auto.
+    + intros Hx. apply Hn'. rewrite Hs. right; exact Hx.
+    + exact Hun.
 Qed.
 
 (** facts of a thread whose own fields and the memory are untouched *)
@@ -532,6 +547,31 @@ Proof.
         -- rewrite upd_other, set_ph_other by exact Hw. rewrite I6'. symmetry.
            apply status_same; auto; cbn; rewrite ?updf_other; auto.
   - cbn [atr a']. rewrite erase_app, hist_app, I7. cbn. reflexivity.
+  - (* hand-over: the popper u now holds the pusher's node (t,k) *)
+    assert (Hfresh : forall w, ~ holds_node g w (t, k)).
+    { intros w Hw. destruct (I8 w _ Hw) as ([P|[W _]] & _ & _).
+      - unfold published in P; cbn in P. rewrite Hp in P. cbn in P. lia.
+      - cbn in W. rewrite Hp in W. destruct W. }
+    assert (Hold : forall w n, w <> u -> holds_node g' w n -> holds_node g w n).
+    { intros w n Hw [H1 H2]. cbn in H1, H2. rewrite updf_other in H2 by exact Hw. split; auto. }
+    assert (Hnew : forall n, holds_node g' u n -> n = (t, k)).
+    { intros n [_ H2]. cbn in H2. rewrite updf_same, Dv in H2. congruence. }
+    intros w n Hh. destruct (Nat.eq_dec w u) as [->|Hwu].
+    + rewrite (Hnew n Hh). split; [|split].
+      * left. unfold published; cbn. rewrite set_ph_same. cbn. lia.
+      * intros Hin. apply I3 in Hin. unfold published in Hin; cbn in Hin. rewrite Hp in Hin. cbn in Hin. lia.
+      * intros w' Hh'. destruct (Nat.eq_dec w' u) as [->|Hw']; auto.
+        exfalso. apply (Hfresh w'). apply Hold; auto. rewrite <- (Hnew n Hh). exact Hh'.
+    + pose proof (Hold w n Hwu Hh) as Hg. destruct (I8 w n Hg) as (Hs & Hn & Hun). split; [|split].
+      * destruct Hs as [Hs|[W S2]]; [left; apply Hpub; auto|].
+        destruct (Nat.eq_dec (fst n) t) as [E|E].
+        -- rewrite E, Hp in W. destruct W.
+        -- right. cbn. rewrite set_ph_other by exact E. split; auto.
+           unfold updf. destruct (Nat.eqb (fst n) u); auto.
+      * exact Hn.
+      * intros w' Hh'. destruct (Nat.eq_dec w' u) as [->|Hw'].
+        -- exfalso. apply (Hfresh w). rewrite <- (Hnew n Hh'). exact Hg.
+        -- apply Hun. apply Hold; auto.
 Qed.
 
 (** ** ... active popper: the store of op_collided into the waiting pusher's descriptor linearizes that push and,
@@ -581,6 +621,32 @@ Proof.
         -- rewrite upd_other by exact Hwu. rewrite I6'. symmetry.
            apply status_same; auto; cbn; rewrite ?updf_other; auto.
   - cbn [atr a']. rewrite erase_app, hist_app, I7. cbn. reflexivity.
+  - (* hand-over: this popper now holds the waiting pusher's node (u,ku) *)
+    pose proof (I4 t) as Hme. rewrite Hp in Hme. cbn in Hme. destruct Hme as (Dp & _ & _ & _).
+    assert (Hfresh : forall w, ~ holds_node g w (u, ku)).
+    { intros w Hw. destruct (I8 w _ Hw) as ([P|[_ S2]] & _ & _).
+      - unfold published in P; cbn in P. rewrite Eu in P. cbn in P. lia.
+      - cbn in S2. congruence. }
+    assert (Hold : forall w n, w <> t -> holds_node g' w n -> holds_node g w n).
+    { intros w n Hw [H1 H2]. cbn in H1, H2. rewrite updf_other in H2 by exact Hw. split; auto. }
+    assert (Hnew : forall n, holds_node g' t n -> n = (u, ku)).
+    { intros n [_ H2]. cbn in H2. rewrite updf_same, Udv in H2. congruence. }
+    intros w n Hh. destruct (Nat.eq_dec w t) as [->|Hwt].
+    + rewrite (Hnew n Hh). split; [|split].
+      * right. cbn. rewrite set_ph_other by exact Hne. rewrite Eu. cbn. split; auto. now rewrite updf_same.
+      * intros Hin. apply I3 in Hin. unfold published in Hin; cbn in Hin. rewrite Eu in Hin. cbn in Hin. lia.
+      * intros w' Hh'. destruct (Nat.eq_dec w' t) as [->|Hw']; auto.
+        exfalso. apply (Hfresh w'). apply Hold; auto. rewrite <- (Hnew n Hh). exact Hh'.
+    + pose proof (Hold w n Hwt Hh) as Hg. destruct (I8 w n Hg) as (Hs & Hn & Hun). split; [|split].
+      * destruct Hs as [Hs|[W S2]]; [left; apply Hpub; auto|].
+        destruct (Nat.eq_dec (fst n) t) as [E|E].
+        -- rewrite E, Hp in W. destruct W.
+        -- right. cbn. rewrite set_ph_other by exact E. split; auto.
+           unfold updf. destruct (Nat.eqb (fst n) u); auto.
+      * exact Hn.
+      * intros w' Hh'. destruct (Nat.eq_dec w' t) as [->|Hw'].
+        -- exfalso. apply (Hfresh w). rewrite <- (Hnew n Hh'). exact Hg.
+        -- apply Hun. apply Hold; auto.
 Qed.
 
 (** ** helpers for the per-step proofs *)
